@@ -4,7 +4,7 @@ import vlib, trees, gens, checklib
 from vlib import enc
 from checklib import Scenario
 
-RULE = ("two-layer trees under $ECONFTOOL_ROOT (configuration names with one and with several dots) (vendor /usr/etc, local /etc) and single absolute files x --delimiters / "
+RULE = ("two-layer trees under $ECONFTOOL_ROOT (a sixth of them below a root of 250 ... 700 bytes) (configuration names with one and with several dots) (vendor /usr/etc, local /etc) and single absolute files x --delimiters / "
         "--comment choices (one character and sets of two; --delimiters also with one to three of the escape sequences \\t \\f \\n \\r \\v in any order, a repeated one, an unknown one, and the word spaces) x files using both comment characters, files with only group-less keys, only sections, both, empty sections, multi-line values, "
         "malformed lines; the real econftool binary (ASan build of util/econftool.c + lib) is run for show, syntax and cat; "
         "stdout, the error line on stderr and the exit status are compared with the model of the tool, which is built on the "
@@ -90,7 +90,11 @@ def check(tier, seed):
     viol = None; evals = 0; kf = [f for f in vlib.known_findings() if f["property"] == pid and f.get("status") == "known"]
     samples = []
     for (cmds, arg, dl, cm, tcmds), w in zip(meta, want):
-        root = vlib.scratch_dir()
+        root0 = vlib.scratch_dir(); root = root0
+        if len(samples) % 7 == 3 or (evals // 3) % 6 == 5:
+            # $ECONFTOOL_ROOT may be deep: every name the tool prints is then long (250 ... 700 bytes)
+            for comp in ("r" * 200, "s" * (evals % 5 * 40 + 30)) + (("t" * 250,) * (evals % 2)): root = os.path.join(root, comp)
+            os.makedirs(root)
         try:
             materialise(root, cmds)
             for c, line in zip(tcmds, w[len(cmds):]):
@@ -108,7 +112,7 @@ def check(tier, seed):
                     viol = (cmds + ["tool %s %s %s %s" % (c, enc(arg), enc(dl), enc(cm))], det); break
             if len(samples) < 2: samples.append([x[:90] for x in cmds[:4]] + ["tool show %s" % arg.decode()])
         finally:
-            shutil.rmtree(root, ignore_errors=True)
+            shutil.rmtree(root0, ignore_errors=True)
         if viol: break
     cov.update(evaluations=evals, distinct_nontrivial=evals, rule=RULE, samples=samples or [["-"]],
                traces_validated_against_impl=evals if not viol else 0)
